@@ -9,11 +9,19 @@ import (
 	"time"
 
 	"verif/harness/choice"
+	"verif/harness/simsched"
 	"verif/harness/wproto"
 )
 
 func runOne(t *testing.T, c *Case, src, sched *choice.Source, out *wproto.Out, id int) {
 	out.Begin(id)
+	out.OnStuck = func() {
+		c.Tape, c.Sched = src.Tape(), sched.Tape()
+		out.Finding(id, "livelock|never-returned", "livelock", "the run exceeded its scheduler step budget and, left to run freely, still had not returned three seconds later: an endless loop", c)
+		out.End(id, []string{"livelock|never-returned"})
+		out.Count("evaluations", 1)
+		out.Finish("restart", id+1)
+	}
 	st := &Stats{}
 	var fs []Finding
 	func() {
@@ -75,6 +83,7 @@ func TestWorker(t *testing.T) {
 	if err != nil {
 		t.Fatal(err)
 	}
+	out.StuckFlag = &simsched.Stuck
 	out.Watch(120 * time.Second)
 	kinds := job.KindList(Kinds)
 	mk := func(i int) (*Case, *choice.Source, *choice.Source) {
